@@ -15,6 +15,9 @@ struct Native
 {
     std::function<std::vector<double> (const std::vector<double>&)> d;
     std::function<std::vector<float> (const std::vector<float>&)>   f;
+    // optional: the callee at exact fractions (rattv).  When every opaque callee of an entry has one, the Lean-side
+    // validation covers that entry too (emitted call text incl. argument order) instead of skipping it.
+    std::function<std::vector<Frac> (const std::vector<Frac>&)>     q;
 };
 inline std::map<std::string, Native>& natives () { static std::map<std::string, Native> m; return m; }
 
